@@ -53,3 +53,61 @@ int ctl_good(int fd, char **out)
 	*out = p;
 	return 0;
 }
+
+/* ---- E4: error result overwritten round a loop;  E5: tri-state result collapsed ---- */
+int ctl_loop_overwrite(int fd, char *buf, size_t n)
+{
+	int ret = 0;
+
+	while (n > 0) {
+		size_t d = n > 16 ? 16 : n;
+		n -= d;
+		buf += d;
+		if ((n & 1) == 0)
+			ret = ctl_can_fail(fd, buf, d);
+	}
+	return ret;
+}
+
+int ctl_loop_checked(int fd, char *buf, size_t n)
+{
+	int ret;
+
+	while (n > 0) {
+		size_t d = n > 16 ? 16 : n;
+		n -= d;
+		buf += d;
+		ret = ctl_can_fail(fd, buf, d);
+		if (ret)
+			return ret;
+	}
+	return 0;
+}
+
+/* < 0 error, 0 equal, > 0 different */
+int ctl_tristate(int fd, char *a, char *b, size_t n)
+{
+	int ret = ctl_can_fail(fd, a, n);
+
+	if (ret)
+		return ret;
+	for (size_t i = 0; i < n; ++i) {
+		if (a[i] != b[i])
+			return 1;
+	}
+	return 0;
+}
+
+int ctl_collapse(int fd, char *a, char *b, size_t n)
+{
+	return ctl_tristate(fd, a, b, n) == 0;
+}
+
+int ctl_no_collapse(int fd, char *a, char *b, size_t n)
+{
+	int ret = ctl_tristate(fd, a, b, n);
+
+	if (ret < 0)
+		return ret;
+	return ret == 0;
+}
